@@ -230,12 +230,20 @@ func cmdCheck(args []string) int {
 		writeEvidence(c, *tier, seed, nil, time.Since(start), 0, []string{"load error: " + err.Error()}, nil)
 		return 2
 	}
+	if os.Getenv("VP_DEBUG") != "" {
+		fmt.Fprintf(os.Stderr, "options: %+v\n", opts)
+	}
 	loadTime := time.Since(t0)
 	fmt.Printf("loaded %s in %.1fs\n", c.Package, loadTime.Seconds())
 
 	known := loadKnown()
 	var reports []*harnessReport
 	broken := []string{}
+	defer func() {
+		if w := eng.Warnings(); w != "" {
+			fmt.Print("WARNING (engine set-up):\n" + w)
+		}
+	}()
 	for _, h := range c.Harnesses {
 		if *only != "" && h.Name != *only {
 			continue
